@@ -103,6 +103,10 @@ def exhaustive(tier):
             for side in ("min", "max"):
                 for v in vals:
                     yield {"spec": {"kind": kind, "req": False, "opts": {side: b}, "validator": None}, "value": v}
+    # byte strings of every length up to 130 and a few longer ones (line-wrapping encoders change behaviour at 57 / 76)
+    for enc in ("base64", "hex"):
+        for n in list(range(0, 131, 1 if tier != "quick" else 3)) + [57, 58, 76, 77, 114, 115, 171, 172, 300, 1000]:
+            yield {"spec": {"kind": "bytes", "req": False, "opts": {"encoding": enc}, "validator": None}, "value": bytes((7 * i + n) % 256 for i in range(n))}
     for exists in (None, False, True, "dir", "file"):
         for name in specs.FS_NAMES + [""]:
             for startdir in ("$ROOT/fs", "$ROOT/fs/sub"):
